@@ -238,7 +238,7 @@ def run_case(ctx, k, p):
 
 
 def gen_problem(rng, quick, k=None):
-    box = None if k is None else [None, "cfloat", "cfix", "material", "cfloat", "hole-fix"][k % 6]
+    box = None if k is None else [None, "cfloat", "cfix", "twofloat", "material", "cfloat", "hole-fix", "twofloat"][k % 8]
     p = femgen.gen_scalar_problem(rng, "fee", size_nodes=rng.choice([25, 40, 60]) if quick else rng.choice([40, 100, 250]), box=box)
     p["dosmartmesh"] = 0 if rng.random() < 0.8 else 1
     return p
@@ -246,7 +246,7 @@ def gen_problem(rng, quick, k=None):
 
 def correspond(ctx):
     rng = ctx.rng
-    count = 12 if ctx.quick() else 90
+    count = 16 if ctx.quick() else 96
     dis = []
     exprs, cases = [], []
     feats = {}
